@@ -165,8 +165,10 @@ theorem applyCmd_frame {c : Config} {s : NodeState} {now : Nat} {e : Entry} {s' 
   · cases h; exact ⟨ApplyFrame.refl s, rfl⟩
   · split at h
     · cases h
-    · cases h
-      exact ⟨⟨rfl, rfl, rfl, rfl, rfl, rfl, rfl, rfl, rfl, rfl, rfl, rfl, rfl, Nat.le_refl _⟩, rfl⟩
+    · split at h
+      · cases h; exact ⟨ApplyFrame.refl s, rfl⟩
+      · cases h
+        exact ⟨⟨rfl, rfl, rfl, rfl, rfl, rfl, rfl, rfl, rfl, rfl, rfl, rfl, rfl, Nat.le_refl _⟩, rfl⟩
   · cases h
     exact ⟨ApplyFrame.refl s, rfl⟩
   · cases h
